@@ -12,7 +12,7 @@ META = dict(
     technique="explicit-state BFS over (stream offset, canonical parser state) of the real HTTP/EVENT feed loop: every segmentation of each enumerated message sequence is a path in the explored graph; the same for the ciphertext stream and every accessory frame-boundary choice in front of the real SecureHomeKitProtocol",
     text="for each enumerated well-formed message sequence the complete segmentation graph of InsecureHomeKitProtocol.data_received "
     "is built (edge = feed the next k bytes, for every k); every path must deliver exactly the sent messages, in order, "
-    "prefix-monotonically, without raising; long streams additionally get every single (thorough: double) cut The same oracle behind the real SecureHomeKitProtocol: ciphertext segmentation graphs, single-cut sweeps and every accessory block-boundary choice. Also: the k-th response has to reach the k-th waiter; empty / tabbed / padded reason phrases.",
+    "prefix-monotonically, without raising; long streams additionally get every single (thorough: double) cut The same oracle behind the real SecureHomeKitProtocol: ciphertext segmentation graphs, single-cut sweeps and every accessory block-boundary choice. Also: the k-th response has to reach the k-th waiter; empty / tabbed / padded reason phrases. Also 204 / 304 / 100 / 207 / 404 replies with chunked (also empty) and length-prefixed bodies: the framing headers decide where a message ends, not the status code.",
     note="message sequences come from a finite grammar (kinds x codes x header casings x framings x tricky bodies); the graph per sequence is complete, "
     "the set of sequences is not all of HTTP",
     design_ref="DESIGN.md §4 C07",
